@@ -221,14 +221,26 @@ RULES.setdefault("C11", []).append(Rule("C11.R2", "lxml Optionals are None-teste
       decides="an entity typed prov:Person stays an entity; the reader derives the record kind from the element name")
 def c02_r2(ctx: Ctx, rule):
     res = RuleResult()
-    q = XM + ".ProvXMLSerializer._derive_record_label"
-    fi = ctx.fn(q)
+    q0 = XM + ".ProvXMLSerializer._derive_record_label"
     base = ctx.const(C, "PROV_BASE_CLS")
-    rec_param = fi.params[1]
-    W, wt, wn = tables_used(ctx, q, is_kind_to_label(ctx))[0]
+    W, wt, wn = tables_used(ctx, q0, is_kind_to_label(ctx))[0]
+    # the function that holds the label logic (the method itself or the helper it delegates to)
+    q = q0
+    for cand in ctx.helper_closure(q0):
+        if any(isinstance(n, ast.Subscript) and norm(n.value) == wt for n in walk_function(ctx.fn(cand).node)):
+            q = cand
+            break
+    fi = ctx.fn(q)
+    rec_param = None
+    for n in walk_function(fi.node):
+        if isinstance(n, ast.Subscript) and norm(n.value) == wt and isinstance(n.slice, ast.Name) and n.slice.id in fi.params:
+            rec_param = n.slice.id
+    if rec_param is None:
+        raise AnalysisError("_derive_record_label: the record-type parameter is not used to look up the default label")
     relabels = []
     for n in walk_function(fi.node):
-        if isinstance(n, ast.Assign) and isinstance(n.value, ast.Subscript) and norm(n.value.value) == wt and norm(n.value.slice) != rec_param:
+        val = n.value if isinstance(n, (ast.Assign, ast.Return)) else None
+        if isinstance(val, ast.Subscript) and norm(val.value) == wt and norm(val.slice) != rec_param:
             relabels.append(n)
     if not relabels:
         raise AnalysisError("_derive_record_label: no value-dependent relabel found")
@@ -327,18 +339,37 @@ def c11_r4(ctx: Ctx, rule):
     res = RuleResult()
     q = JS + ".decode_json_container"
     fi = ctx.fn(q)
-    rec_disc = [n for n in walk_function(fi.node) if isinstance(n, ast.Call) and ((call_name(n) == "hasattr" and len(n.args) == 2 and isinstance(n.args[1], ast.Constant) and n.args[1].value in ("items", "keys")) or (call_name(n) == "isinstance" and norm(n.args[1]) in ("dict", "list", "(list, tuple)")))]
-    val_disc = [n for n in walk_function(fi.node) if isinstance(n, ast.Call) and call_name(n) == "isinstance" and len(n.args) == 2 and "list" in norm(n.args[1])]
+    cl = [x for x in ctx.helper_closure(q) if x.startswith(JS + ".")]
+    rec_disc, formal_disc, other_disc = [], [], []
+    for q2 in cl:
+        f2 = ctx.fn(q2)
+        for n in walk_function(f2.node):
+            if isinstance(n, ast.Call) and ((call_name(n) == "hasattr" and len(n.args) == 2 and isinstance(n.args[1], ast.Constant) and n.args[1].value in ("items", "keys")) or (call_name(n) == "isinstance" and len(n.args) == 2 and norm(n.args[1]) in ("dict",))):
+                if q2 != JS + ".decode_json_representation":
+                    rec_disc.append(n)
+            if isinstance(n, (ast.If, ast.IfExp)) and isinstance(n.test, ast.Call) and call_name(n.test) == "isinstance" and len(n.test.args) == 2 and "list" in norm(n.test.args[1]):
+                subj = norm(n.test.args[0])
+                body = n.body if isinstance(n.body, list) else [n.body]
+                orelse = n.orelse if isinstance(n.orelse, list) else [n.orelse]
+                body_txt = " ".join(norm(b) for b in body)
+                else_txt = " ".join(norm(b) for b in orelse if b is not None)
+                if "decode_json_representation" in body_txt and "decode_json_representation" in else_txt:
+                    other_disc.append(n)
+                elif ("len(%s)" % subj) in body_txt or ("%s[0]" % subj) in body_txt:
+                    formal_disc.append(n)
+        # guard-clause spelling: `if not isinstance(values, list): return values` followed by the unwrapping
+        for n in walk_function(f2.node):
+            if isinstance(n, ast.Call) and call_name(n) == "isinstance" and len(n.args) == 2 and "list" in norm(n.args[1]):
+                subj = norm(n.args[0])
+                ftxt = " ".join(norm(x) for x in f2.node.body)
+                if (("len(%s)" % subj) in ftxt or ("%s[0]" % subj) in ftxt) and not formal_disc:
+                    formal_disc.append(n)
+                if ftxt.count("decode_json_representation") >= 2 and not other_disc:
+                    other_disc.append(n)
+    branches = {"formal": bool(formal_disc), "other": bool(other_disc)}
     res.ob("record entry: single object vs array of objects discriminated: %s" % bool(rec_disc))
     if not rec_disc:
         res.fail(rule.id, "shape::record-array", ctx.loc(q, fi.node), "decode_json_container no longer distinguishes a record object from an array of records", "repeated identifiers written as arrays fail to load")
-    # both the formal branch and the other-attribute branch discriminate lists
-    branches = {}
-    for n in val_disc:
-        for anc in walk_function(fi.node):
-            if isinstance(anc, ast.If) and isinstance(anc.test, ast.Compare) and isinstance(anc.test.ops[0], ast.In) and any(x is n for x in ast.walk(anc)):
-                arm = "formal" if any(x is n for b in anc.body for x in ast.walk(b)) else "other"
-                branches[arm] = True
     for arm in ("formal", "other"):
         res.ob("%s attribute values: scalar vs array discriminated: %s" % (arm, branches.get(arm, False)))
         if not branches.get(arm):
@@ -469,4 +500,56 @@ def c05_r7(ctx: Ctx, rule):
             res.fail(rule.id, "lexical-truthiness::%s::%s" % (q, norm(t)[:40]), ctx.loc(q, t),
                      "%s decides on `%s` whether to convert: an empty (or falsy) lexical form is left as a Literal object" % (q.rsplit(".", 1)[1], norm(t)[:50]),
                      "Literal('', xsd:string) stays a Literal while a direct '' is a str: two spellings of one value on one record")
+    return res
+
+
+@rule("C11", "C11.R7", "a subtype element's type is recorded whether or not the element also carries xsi:type", 1,
+      decides="<prov:person xsi:type='ex:Employee'> loads as an agent typed both prov:Person and ex:Employee")
+def c11_r7(ctx: Ctx, rule):
+    res = RuleResult()
+    q0 = XM + ".ProvXMLSerializer.deserialize_subtree"
+    from .tables import is_label_to_kind
+
+    host = None
+    for q in ctx.helper_closure(q0):
+        f = ctx.fn(q)
+        for kind, v, text, key, node in ctx.table_lookups(q):
+            if kind in ("index", "get") and isinstance(v, dict) and is_label_to_kind(ctx)(v):
+                host = (q, text)
+    if host is None:
+        raise AnalysisError("deserialize_subtree: element->type lookup not found")
+    q, ttext = host
+    fi = ctx.fn(q)
+    g = get_cfg(ctx, q)
+    svar = None
+    for n in walk_function(fi.node):
+        if isinstance(n, ast.Assign) and isinstance(n.value, ast.Subscript) and norm(n.value.value) == ttext and isinstance(n.targets[0], ast.Name):
+            svar = n.targets[0].id
+    if svar is None:
+        raise AnalysisError("deserialize_subtree: the element's own type is not bound to a local")
+    xsi_tests = [n for n in g.nodes if n.kind == "test" and "xsi" in norm(n.stmt.test) and "attrib" in norm(n.stmt.test)]
+    uses = []
+    for n in g.nodes:
+        if n.stmt is None or n.kind == "test":
+            continue
+        st = n.stmt
+        if isinstance(st, ast.Assign) and isinstance(st.value, ast.Subscript) and (norm(st.value.value) == ttext or norm(st.value.slice) == svar):
+            continue  # the lookups themselves
+        if any(isinstance(x, ast.Name) and x.id == svar for e in cfgmod.header_exprs(st) for x in ast.walk(e)):
+            uses.append(n)
+    if not uses:
+        res.ob("the element's own type `%s` is never recorded" % svar)
+        res.fail(rule.id, "subtype-not-recorded", ctx.loc(q, fi.node), "the (sub)type read from the element name is never added to the record", "<prov:person> loads as a plain agent")
+        return res
+    if not xsi_tests:
+        res.ob("the reader has no xsi:type handling on record elements; subtype recorded at %d site(s)" % len(uses), nontrivial=False)
+        return res
+    for t in xsi_tests:
+        starts = [m for m, lab in t.succ if lab == "true"]
+        ok = any(any(u is s0 or g.exists_path(s0, u, labels_excluded=("back", "continue", "exc", "raise")) for u in uses) for s0 in starts)
+        res.ob("after `%s` is taken, the element's own type `%s` is still recorded in the same iteration: %s" % (norm(t.stmt.test)[:50], svar, ok))
+        if not ok:
+            res.fail(rule.id, "subtype-dropped-with-xsi-type", ctx.loc(q, t.stmt),
+                     "when the element carries xsi:type, the type implied by the element name (`%s`) is no longer recorded" % svar,
+                     "foreign XML <prov:person prov:id='ex:bob' xsi:type='ex:Employee'/> loads as an agent typed ex:Employee only; prov:Person is silently dropped")
     return res
